@@ -492,7 +492,7 @@ def repeat_trigger(kinds_so_far):
 
 def check_step(ctx, report, ops, case, side, kind, off, before, after, history, label, spec=True):
     res = ctx.lean.call("C04.step", kind=kind, ops=ops, off=off, before=grid(before), after=grid(after))
-    rc = {"case": case, "side": side, "step_index": len(history) - 1, "kind": kind}
+    rc = {"case": case, "side": side, "step_index": len(history) - 1, "step_kind": kind}
     if res["exact"] is not None and res["exact"] != grid(after):
         report.disagree(f"flags after {kind}", rc, first_diff(after, np.array(res["exact"])), None)
     elif res["not_in_outcomes"]:
@@ -779,9 +779,10 @@ def replay(ctx, report, path):
     with open(path, encoding="utf-8") as f:
         data = json.load(f)
     case = data.get("input", data)
-    while isinstance(case, dict) and "kind" not in case and ("case" in case or "kernel_case" in case):
+    kinds = ("criteria", "pipeline", "kernel", "lean_run")
+    while isinstance(case, dict) and case.get("kind") not in kinds and ("case" in case or "kernel_case" in case):
         case = case.get("case") or case.get("kernel_case")
-    if not isinstance(case, dict) or case.get("kind") not in ("criteria", "pipeline", "kernel", "lean_run"):
+    if not isinstance(case, dict) or case.get("kind") not in kinds:
         # a replay file of a broken obligation with no failing input: show what no longer checks
         print("no input to replay; broken obligations:", json.dumps(data.get("broken_theorems_or_translator", data.get("broken")), default=str)[:2000])
         for d in data.get("correspondence_disagreements", [])[:3]:
